@@ -18,6 +18,7 @@ def resolvable (isa ty : String) (A S P : Int) (data : List Nat) : Prop :=
   | "riscv", "bc_imm11" => fitsS 12 (S - P)
   | "riscv", "bc_imm8" => fitsS 9 (S - P)
   | "arm", "imm24" => fitsS 26 (S - P - 8)
+  | "arm", "ldr_imm12" => bits (wordLE data) 8 4 = 0 ∧ bits (wordLE data) 23 1 = 0     -- imm12[11:8] and U clear as emitted
   | "thumb", "wrap_new11" => P % 2 = 0
   | "thumb", "rel8" => P % 2 = 0
   | "thumb", "lit8" => P % 2 = 0
